@@ -7,7 +7,7 @@ from hypothesis import strategies as st
 
 from vlib import gen, ref, obs
 from vlib import expr as E
-from vlib.build import build, apply_value
+from vlib.build import build, apply_value, apply_constraint
 from vlib.core import Fail, HarnessInconclusive
 from vlib.nlp import NLP, Rows, diff_rows, close, time_like_vars, random_points, summarize_diff, DMa
 from props import c04, c05, c14
@@ -60,7 +60,12 @@ def strategy_(draw):
     # solver settings in both spellings CasADi accepts: dotted keys or a nested plugin dictionary
     it = draw(st.integers(1, 3))
     sp["solver"] = ["ipopt", draw(st.sampled_from([{"ipopt.max_iter": it}, {"ipopt": {"max_iter": it}}, {"ipopt": {"max_iter": it}, "expand": True}, {"ipopt.max_iter": it, "expand": True}]))]
-    return {"spec": sp, "when": when, "late": late, "rng": draw(st.integers(0, 2**31 - 1))}
+    # a constraint added after the query/solve and before saving: the transcription is stale at the moment of the save
+    edit = None
+    if when != "before" and draw(st.integers(0, 2)) == 0:
+        leaf = gen.leaves_of([d for d in sp["states"] if not d.get("quad")])[0]
+        edit = {"lhs": [leaf], "rel": "<=", "rhs": [E.C(draw(st.sampled_from([7.5, 9.0])))], "grid": None, "include_first": True, "include_last": True}
+    return {"spec": sp, "when": when, "late": late, "edit": edit, "rng": draw(st.integers(0, 2**31 - 1))}
 
 
 def strategy(tier):
@@ -69,7 +74,7 @@ def strategy(tier):
 
 def feature_labels(case):
     sp = case["spec"]
-    labs = (["set_value after transcription, before save"] if case.get("late") and case["when"] != "before" else []) + ["method:" + sp["method"]["cls"], "grid:" + sp["method"]["grid"]["cls"], "save:" + case["when"], "solver-options:" + ("nested" if isinstance(sp.get("solver", [0, {}])[1].get("ipopt"), dict) else "dotted")]
+    labs = (["edit between transcription and save"] if case.get("edit") else []) + (["set_value after transcription, before save"] if case.get("late") and case["when"] != "before" else []) + ["method:" + sp["method"]["cls"], "grid:" + sp["method"]["grid"]["cls"], "save:" + case["when"], "solver-options:" + ("nested" if isinstance(sp.get("solver", [0, {}])[1].get("ipopt"), dict) else "dotted")]
     if sp["T"][0] == "free" or sp["t0"][0] == "free":
         labs.append("free-time")
     if any(it[0] in ("T", "t0") for it in sp.get("initial", [])):
@@ -121,6 +126,8 @@ def check(case, ctx):
         for d in spR["params"]:
             if d["name"] == name:
                 d["value"] = val
+    if case.get("edit"):
+        spR["constraints"] = list(spR.get("constraints", [])) + [case["edit"]]
     ref_build = build(spR)          # an untouched twin written with the final values: what the original must still be after save
     nR = NLP(ref_build.ocp)
     if case["when"] == "after_query":
@@ -132,8 +139,16 @@ def check(case, ctx):
             raise HarnessInconclusive("limited solve failed: %s" % str(ex)[:60])
     for name, val in case.get("late", []):
         apply_value(B, ocp, name, val)
+    if case.get("edit"):
+        B.stage = ocp
+        apply_constraint(B, ocp, case["edit"])
+        feats["edited_between_transcription_and_save"] = True
     fn = os.path.join(os.getcwd(), "case.rockit")
-    ocp.save(fn)
+    try:
+        ocp.save(fn)
+    except Exception as ex:
+        fails.append(Fail("save-raises", feats, {"message": str(ex).strip().splitlines()[-1][:200]}))
+        return fails
     from rockit import Ocp
     ocp2 = Ocp.load(fn)
     ocp3 = Ocp.load(fn)      # a second copy that is edited through its accessors before its first transcription
